@@ -243,6 +243,40 @@ def gen_skewed(rng, kind, bits):
     return [[b[i][j] * sc[i] for j in range(4)] for i in range(4)]
 
 
+def gen_unimod_huge(rng, kind, bits):
+    """unimodular 4x4 matrix with huge entries: 0 upper unitriangular, 1 lower unitriangular, 2 upper*lower,
+    3 lower*upper, 4 the 2x2 block (D, D+1; 1, 1) (det -1) on a random index pair"""
+    def tri(upper):
+        u = [[1 if i == j else 0 for j in range(4)] for i in range(4)]
+        for i in range(4):
+            for j in range(4):
+                if (j > i) if upper else (j < i):
+                    u[i][j] = rsigned(rng, bits - rng.below(8)) if rng.below(4) else 0
+        if all(u[i][j] == 0 for i in range(4) for j in range(4) if i != j):
+            if upper:
+                u[0][3] = rsigned(rng, bits) | 1
+            else:
+                u[3][0] = rsigned(rng, bits) | 1
+        return u
+    if kind == 0:
+        return tri(True)
+    if kind == 1:
+        return tri(False)
+    if kind == 2:
+        return matmul(tri(True), tri(False))
+    if kind == 3:
+        return matmul(tri(False), tri(True))
+    u = [[1 if i == j else 0 for j in range(4)] for i in range(4)]
+    a = rng.below(4)
+    b = (a + 1 + rng.below(3)) % 4
+    d = (1 << bits) + (rng.bits(bits // 2) if rng.below(2) else 0)
+    u[a][a], u[a][b], u[b][a], u[b][b] = d, d + 1, 1, 1
+    return u
+
+
+UNIMOD_KINDS = ["upper", "lower", "upper*lower", "lower*upper", "block(D,D+1;1,1)"]
+
+
 # ---------------------------------------------------------------------------------- running the two sides
 class Side:
     HANG_BUDGET = 6
@@ -264,7 +298,7 @@ class Side:
         reported as violations by the stages)."""
         out = []
         forked = bool(lines) and all(x.startswith("! ") for x in lines)
-        step = 40 if forked else max(len(lines), 1)
+        step = 12 if forked else max(len(lines), 1)
         for b0 in range(0, len(lines), step):
             chunk = lines[b0:b0 + step]
             if forked and self.hangs >= self.HANG_BUDGET:
@@ -299,6 +333,36 @@ def precision_slack(q, lat):
     logdet = sum(max(max(abs(x).bit_length(), 1) for x in row) for row in lat)
     mb = max(abs(x).bit_length() for row in lat for x in row)
     return 2 * logdet - (q.bit_length() + 2 * mb)
+
+
+KEY_UNDERFLOW = "lll:full-rank:ret-1:float-underflow"
+WHAT_UNDERFLOW = ("quat_lattice_lll returns -1 (rank deficient) on a FULL-RANK lattice given by a skewed basis: the zero test "
+                  "mpf_get_d(B[k]) == 0.0 underflows the double conversion when the exact |b*_k|^2 < 2^-1074 "
+                  "(repair: notes/patches/C16-fix-lll-float-zero.diff)")
+
+
+def float_underflow_index(q, lat):
+    """first k >= 1 whose exact Gram-Schmidt norm B_k of the INPUT basis (columns) is below 2^-1074, else None.
+    When the routine first computes B[k] (k > kmax) the rows 0..k-1 have only been transformed among themselves and
+    row k is untouched, so that B[k] is exactly this number: below 2^-1074 its conversion to double is 0.0."""
+    gs = gram_schmidt(q, cols(lat))
+    if gs is None:
+        return None
+    for k in range(1, 4):
+        b = gs[1][k]
+        if b.numerator.bit_length() - b.denominator.bit_length() < -1073:
+            return k
+    return None
+
+
+def flt(x):
+    """float for the evidence; values outside the double range are given as '2^k'"""
+    if x is None:
+        return None
+    try:
+        return float(x)
+    except OverflowError:
+        return "%s2^%d" % ("-" if x < 0 else "", abs(x.numerator).bit_length() - abs(x.denominator).bit_length())
 
 
 def hist(ctx, name, key):
@@ -354,6 +418,31 @@ def lll_cases(ctx, side, rng):
                 continue
             w = o.split("|")[1].split()
             cases.append((tag, l, PRIMES[l], unhx(w[0]), parse_mat(w[1:17])))
+    # skewed NON-HNF bases with huge unimodular factors: M = H*U (same lattice as H), H an HNF / ideal lattice,
+    # U unimodular with 400..1400-bit entries; all three primes and small q.  Deterministic round-robin over
+    # (kind of U, choice of q) so that every combination occurs in the quick tier.
+    ideal_pool = [c for c in cases if c[0] in ("ideal2e", "idealprime", "idealgen", "signlat")]
+    nsk = 60 * T
+    for i in range(nsk):
+        kind = i % 5
+        qsel = (i // 5) % 4
+        l = [1, 3, 5][(i // 20) % 3]
+        q = PRIMES[l] if qsel < 2 else rng.choice([1, 3, 7, 103, (1 << 61) - 1])
+        if i % 3 == 2 and ideal_pool:
+            src = rng.choice(ideal_pool)
+            h, den = src[4], src[3]
+            if qsel < 2:
+                l, q = src[1], src[2]
+        else:
+            h, den = gen_hnf(rng, 1 + rng.below(rng.choice([8, 200, 1000]))), 1
+        bits = 400 + rng.below(1001) if i % 2 else 1000 + rng.below(401)
+        u = gen_unimod_huge(rng, kind, bits)
+        cases.append(("skewU:" + UNIMOD_KINDS[kind], l, q, den, matmul(h, u)))
+    # the witness family of the float-underflow finding, explicitly
+    for e in (400, 600, 1000, 1400):
+        for q in (103, PRIMES[1]):
+            d = 1 << e
+            cases.append(("skewU:witness(D=2^%d)" % e, 1, q, 1, from_cols([[d, 1, 0, 0], [d + 1, 1, 0, 0], [0, 0, 1, 0], [0, 0, 0, 1]])))
     return cases
 
 
@@ -369,13 +458,17 @@ def stage_lll(ctx, side):
         for i in by_lvl[l]:
             tag, _, q, den, lat = cases[i]
             lines[i] = "lll.run %s %s %s" % (hx(q), hx(den), mat_hex(lat))
-        for i, o in zip(by_lvl[l], side.c(l, ["! 5 " + lines[i] for i in by_lvl[l]])):
+        # alarm: 5 s (calls take milliseconds), 40 s for the few inputs with entries above 2000 bits (measured: 7 s for
+        # 4000-bit entries at level 5)
+        alarm = lambda i: 40 if max(abs(x).bit_length() for row in cases[i][4] for x in row) > 2000 else 5
+        for i, o in zip(by_lvl[l], side.c(l, ["! %d " % alarm(i) + lines[i] for i in by_lvl[l]])):
             outs[i] = o
     keep = [i for i in range(len(cases)) if outs[i] != "skipped"]
     cases = [cases[i] for i in keep]
     lines = [lines[i] for i in keep]
     outs = [outs[i] for i in keep]
     # Lean certificate check on every output + python oracle
+    underflow_ops = set()      # calls explained by the float-underflow finding (reported under its own key)
     lean_lines, lean_idx = [], []
     strict_ok = 0
     nviol = 0
@@ -406,8 +499,15 @@ def stage_lll(ctx, side):
         ret = int(w[0])
         red = parse_mat(w[1:17]) if ret == 0 and len(w) >= 17 else None
         if ret != 0:
-            ctx.violation("lll:full-rank-rejected", "quat_lattice_lll returned %d on a full-rank lattice (class %s)" % (ret, tag), replay)
+            uf = float_underflow_index(q, lat)
+            if ret == -1 and uf is not None:
+                replay["exact_B_k_below_2^-1074_at_k"] = uf
+                underflow_ops.add(lines[i])
+                ctx.violation(KEY_UNDERFLOW, WHAT_UNDERFLOW + " (class %s)" % tag, replay)
+            else:
+                ctx.violation("lll:full-rank-rejected", "quat_lattice_lll returned %d on a full-rank lattice (class %s)" % (ret, tag), replay)
             nviol += 1
+            hist(ctx, "lll_full_rank_rejected", "float-underflow" if uf is not None else "other")
             continue
         if not same_lattice_cols(lat, red):
             ctx.violation("lll:lattice-changed", "quat_lattice_lll output does not generate the input lattice "
@@ -422,8 +522,8 @@ def stage_lll(ctx, side):
                 strict_ok += 1 if ok2 else 0
                 margins.append((float(mx), float(lov)))
             else:
-                replay["max_abs_mu"] = float(mx) if mx is not None else None
-                replay["min_lovasz_ratio"] = float(lov) if lov is not None else None
+                replay["max_abs_mu"] = flt(mx)
+                replay["min_lovasz_ratio"] = flt(lov)
                 ctx.violation("lll:not-reduced:" + reason, "quat_lattice_lll output is not (%.2f, %.2f)-reduced: %s "
                               "(class %s, exact rational Gram-Schmidt)" % (DELTA_CHK, ETA_CHK, reason, tag), replay)
                 nviol += 1
@@ -445,7 +545,8 @@ def stage_lll(ctx, side):
     if dis:
         ctx.violation("model:lllCheck-vs-oracle", "Lean checker and python oracle disagree on a C output", dict(disagreements=dis[:5]),
                       found=False)
-    guard_correspondence(ctx, side, [(lines[i], outs[i]) for i in range(len(cases))], "full-rank stage")
+    guard_correspondence(ctx, side, [(lines[i], outs[i]) for i in range(len(cases)) if lines[i] not in underflow_ops],
+                         "full-rank stage" + (" (%d calls filed under %s excluded)" % (len(underflow_ops), KEY_UNDERFLOW) if underflow_ops else ""))
     ctx.coverage["lll_outputs_checked"] = len(lean_lines)
     ctx.coverage["lll_outputs_meeting_exact_implemented_constants(delta=double(0.99),eta=1/2)"] = strict_ok
     if margins:
@@ -650,6 +751,27 @@ def stage_dim2(ctx, side):
     rng = ctx.rng.fork("dim2")
     n = 150 if ctx.quick else 3000
     ops = []       # (kind, op line, data for oracle)
+    # deterministic class: lattices whose two successive minima are EQUAL (boundary of the Gauss loop test): Z^2,
+    # scaled / rotated squares (q=1), (a,b),(a,-b) for every q, hexagonal (q=3), rectangular with s^2 = q t^2 (q=4, 9);
+    # each as given and hidden behind a (seeded) unimodular change of basis.  Run first.
+    eqmin = []
+    for q0, c0, c1 in [(1, (1, 0), (0, 1)), (1, (3, 0), (0, 3)), (1, (2, 1), (-1, 2)), (1, (-3, -3), (-3, 0)), (1, (-3, -3), (-3, 3)),
+                       (1, (-3, -2), (-3, 2)), (1, (5, 12), (-12, 5)), (2, (3, 1), (3, -1)), (2, (4, 3), (4, -3)), (3, (2, 0), (1, 1)),
+                       (3, (4, 0), (2, 2)), (3, (3, 2), (3, -2)), (4, (2, 0), (0, 1)), (5, (5, 2), (5, -2)), (7, (3, 1), (3, -1)),
+                       (9, (3, 0), (0, 1)), (11, (7, 2), (7, -2)), (103, (11, 1), (11, -1)), (103, (30, 3), (30, -3))]:
+        eqmin.append((q0, [[c0[0], c1[0]], [c0[1], c1[1]]]))
+        for _ in range(1 if ctx.quick else 6):
+            k1, k2 = rsigned(rng, 1 + rng.below(12)), rsigned(rng, 1 + rng.below(12))
+            # columns (c0 + k1*c1', c1') with c1' = c1 + k2*c0 : unimodular change of basis
+            d1 = (c1[0] + k2 * c0[0], c1[1] + k2 * c0[1])
+            d0 = (c0[0] + k1 * d1[0], c0[1] + k1 * d1[1])
+            eqmin.append((q0, [[d0[0], d1[0]], [d0[1], d1[1]]]))
+    for q0, bm in eqmin:
+        hist(ctx, "dim2_basis_kind", "equal-minima")
+        mh = " ".join(hx(x) for row in bm for x in row)
+        ops.append(("short", "d2.short %s %s" % (hx(q0), mh), (q0, bm)))
+        if q0 < 2 ** 31:
+            ops.append(("filter", "d2.filter %s %s %s %s %s %s %s" % (mh, hx(5), hx(-7), hx(q0), hx(6), hx(5), hx(40)), (q0, bm, [5, -7], 6, 5)))
     for i in range(n):
         q = rng.choice([1, 2, 3, 5, 7, 11, 103, 1 + rng.bits(20), 1 + rng.bits(1 + rng.below(200))])
         bits = 1 + rng.below(rng.choice([6, 20, 80, 300]))
@@ -857,6 +979,13 @@ def stage_corpus(ctx, side):
                     ok, why = False, "Lean lllCheck rejects the output (code %s)" % lc
         if ok:
             n_ok += 1
+        elif e.get("open_key") and ow and ow[0] == e.get("open_outcome", "-1") and det_int(lat) != 0:
+            # a finding whose repair is delivered as a patch but not committed yet: exactly this outcome is reported
+            # under its fixed key (KNOWN-FINDING once listed open in known_findings.json); after the fix the entry is
+            # an ordinary regression replay ("expected_after_fix")
+            n_ok += 1
+            hist(ctx, "corpus_open_findings_confirmed", e["open_key"])
+            ctx.violation(e["open_key"], e.get("what", ""), replay)
         else:
             ctx.violation("corpus:" + e.get("name", f), "recorded finding is back (%s): %s" % (e.get("what", "")[:120], why), replay)
     ctx.obligation("corpus of past findings (%d replays) passes on the current tree" % len(files), n_ok == len(files),
